@@ -133,6 +133,9 @@ def conditions(tier):
         call("eq4", "poor")
         for pk in ("1,1", "0,2"):
             call(pk, "medium", extra={"XH_ORDER": "fifo"})
+    # ---- (4) constants that compare equal but are different values (1 / True / 1.0 ...), in one call and across calls of a plan
+    cs.append(_cond("c02_consts", {"XH_CSCOPED": 0}, "equal_but_distinct_constants", T))
+    cs.append(_cond("c02_consts", {"XH_CSCOPED": 1}, "equal_but_distinct_constants_scoped", T))
     # ---- (3) unpack
     for kind in range(4):
         cs.append(_cond("c02_unpack", {"XH_KIND": kind}, f"unpack_kind{kind}", T))
